@@ -504,6 +504,10 @@ def check_runner_and_deploy(seed, acc):
         for s_ in specs:
             a = s_["acl_safe"] if safe else s_["acl"]
             exp = jsontools.apply_json_fragment(exp, s_["fragment"], [a] if isinstance(a, str) else a)
+        if path not in got[safe]:
+            acc.violation("C13/runner/file-of-a-generator-missing-from-the-result", "a file that JSON fragment generators own is missing from the result (its generators' fragments and ACLs were not applied)",
+                          dict(w, safe=safe, files=sorted(got[safe]), expected=exp))
+            return
         if J(got[safe][path][0]) != J(exp):
             acc.violation("C13/runner/%s-result-differs-from-sequential-merge" % ("acl-safe" if safe else "plain"),
                           "the document built from the generators (through run_file_generators) is not the sequential merge of their fragments under their %s" % ("safe ACLs" if safe else "ACLs"),
